@@ -102,6 +102,24 @@ Section Main.
       + destruct H; discriminate.
   Qed.
 
+  Lemma tok_state_cons : forall ln st L rest,
+    tok_state T ln st (L :: rest) =
+    match tokenize_line T (S ln) L with
+    | LFuel => SErrInternal
+    | LErr off => SErrToken (S ln) (S off) (S (S off))
+    | LOk lts =>
+        if all_comment lts then
+          sprepend (lts ++ [newline_tok (S ln) L]) (tok_state T (S ln) st rest)
+        else
+          match indent_step (S ln) st (take_ws T L) with
+          | IEmpty => SErrInternal
+          | IBad => SErrIndent (S ln) 1 (S (length (take_ws T L)))
+          | IOk pre st' =>
+              sprepend (pre ++ lts ++ [newline_tok (S ln) L]) (tok_state T (S ln) st' rest)
+          end
+    end.
+  Proof. reflexivity. Qed.
+
   Definition line_piece (n : nat) (L : str) (st0 : list str) (pre lts : list token) (st1 : list str) : Prop :=
     tokenize_line T n L = LOk lts /\
     ((all_comment lts = true /\ pre = [] /\ st1 = st0) \/
@@ -116,19 +134,21 @@ Section Main.
       tok_state T (S (ln + l)) st1 (skipn (S l) lines) = SOk after st'.
   Proof.
     intros lines ln st body st' l L H Hn.
-    destruct (nth_error_split3 _ _ _ _ Hn) as [E Hl]. rewrite E in H. rewrite tok_state_app in H.
-    destruct (tok_state T ln st (firstn l lines)) as [before st0| | |] eqn:Eb; try discriminate.
+    destruct (nth_error_split3 _ _ _ _ Hn) as [E Hl].
+    remember (firstn l lines) as l1 eqn:E1. remember (skipn (S l) lines) as l2 eqn:E2.
+    rewrite E in H. rewrite tok_state_app in H.
+    destruct (tok_state T ln st l1) as [before st0| | |] eqn:Eb; try discriminate.
     rewrite Hl in H. simpl in H.
     destruct (tokenize_line T (S (ln + l)) L) as [lts|e|] eqn:El; try discriminate.
     destruct (all_comment lts) eqn:Ec.
-    - destruct (tok_state T (S (ln + l)) st0 (skipn (S l) lines)) as [after st2| | |] eqn:Ea; try discriminate.
+    - destruct (tok_state T (S (ln + l)) st0 l2) as [after st2| | |] eqn:Ea; try discriminate.
       simpl in H. injection H as <- <-.
-      exists before, [], lts, after, st0, st0. simpl. repeat split; auto. left. auto.
+      exists before, [], lts, after, st0, st0. simpl. repeat split; auto; left; auto.
     - destruct (indent_step (S (ln + l)) st0 (take_ws T L)) as [pre st1| |] eqn:Ei; try discriminate.
       apply indent_step_ok in Ei.
-      destruct (tok_state T (S (ln + l)) st1 (skipn (S l) lines)) as [after st2| | |] eqn:Ea; try discriminate.
+      destruct (tok_state T (S (ln + l)) st1 l2) as [after st2| | |] eqn:Ea; try discriminate.
       simpl in H. injection H as <- <-.
-      exists before, pre, lts, after, st0, st1. rewrite <- !app_assoc. repeat split; auto. right. auto.
+      exists before, pre, lts, after, st0, st1. rewrite <- !app_assoc. repeat split; auto; right; auto.
   Qed.
 
   Lemma tokenize_lines_inv : forall lines ts,
@@ -162,7 +182,8 @@ Section Main.
       destruct (nth_error lines (line t - 1)) as [L|] eqn:En.
       2:{ apply nth_error_None in En. lia. }
       destruct (tok_state_split _ _ _ _ _ _ _ Hs En) as (before & pre & lts & after & st0 & st1 & -> & Hb & [Hl Hp] & Ha).
-      simpl in *. replace (S (line t - 1)) with (line t) in * by lia.
+      assert (Eln : S (0 + (line t - 1)) = line t) by lia. rewrite Eln in *.
+      assert (Eln' : S (line t - 1) = line t) by lia.
       apply in_app_or in Hin. destruct Hin as [Hin|Hin].
       { pose proof (tok_state_range _ _ _ _ _ Hb t Hin) as Hr2. rewrite firstn_length in Hr2. lia. }
       apply in_app_or in Hin. destruct Hin as [Hin|Hin].
@@ -170,11 +191,11 @@ Section Main.
       apply in_app_or in Hin. destruct Hin as [Hin|Hin].
       + destruct Hp as [(_ & -> & _)|[_ Hp]]; [destruct Hin|].
         eapply pre_shape_syms in Hin; eauto. destruct Hin as (_ & _ & _ & [Hd|(top & Hpre & Hne & Hi)]).
-        * eapply O_dedent; eauto. rewrite Hd. f_equal. lia.
-        * eapply O_indent; eauto. rewrite Hi. f_equal. lia.
-      + apply in_app_or in Hin. destruct Hin as [Hin|[<-|[]]].
-        * eapply O_lex; eauto. replace (S (line t - 1)) with (line t) by lia. auto.
-        * eapply O_newline; eauto. simpl. f_equal.
+        * eapply (O_dedent lines t (line t - 1) L); eauto. rewrite Eln'. exact Hd.
+        * eapply (O_indent lines t (line t - 1) L top); eauto. rewrite Eln'. exact Hi.
+      + apply in_app_or in Hin. destruct Hin as [Hin|[Hin|[]]].
+        * eapply (O_lex lines t (line t - 1) L lts); eauto. rewrite Eln'. auto.
+        * eapply (O_newline lines t (line t - 1) L); eauto. rewrite Eln'. auto.
     - apply repeat_spec in Hin. apply O_eof. auto.
   Qed.
 
@@ -188,7 +209,8 @@ Section Main.
     rewrite Forall_forall in H. apply H in Hin.
     destruct Hin as [Hl (k & _ & Hc0 & Hc1 & Hb & Hne & Htx & Hlf)].
     rewrite Nat.sub_0_r in *. simpl in Hb.
-    replace (c0 t - 1) with k by lia. unfold slice_of. repeat split; auto; lia.
+    unfold slice_of. replace (c0 t - 1) with k by lia.
+    split; [auto|]. split; [|split; auto]. split; [lia|]. split; [auto|]. split; [lia|auto].
   Qed.
 
   Theorem positions_exact_proof : forall lines ts t,
@@ -203,17 +225,17 @@ Section Main.
       rewrite Nat.sub_0_r. split; [lia|]. eauto.
     - subst t. simpl. rewrite Nat.sub_0_r. split; [lia|]. exists L. split; auto.
       destruct (take_ws_split T L) as (rest & HL & _).
+      assert (HLl : length L = length (take_ws T L) + length rest) by (rewrite HL at 1; apply app_length).
       unfold slice_of. simpl. repeat split; try lia.
-      rewrite HL at 1. rewrite app_length. lia.
     - subst t. simpl. rewrite Nat.sub_0_r. split; [lia|]. exists L. split; auto.
       destruct (take_ws_split T L) as (rest & HL & _). destruct Hp as [x Hx].
       unfold slice_of. simpl. rewrite Nat.sub_0_r.
       assert (Hlen : length (skipn (length top) (take_ws T L)) = length x).
       { rewrite Hx at 1. rewrite skipn_app_exact. auto. }
       assert (Hlw : length (take_ws T L) = length top + length x) by (rewrite Hx at 1; apply app_length).
+      assert (HLl : length L = length (take_ws T L) + length rest) by (rewrite HL at 1; apply app_length).
       repeat split; try lia.
-      + rewrite HL at 1. rewrite app_length. lia.
-      + rewrite Hlen. rewrite HL at 2. rewrite Hx at 2. rewrite <- app_assoc, skipn_app_exact.
+      rewrite Hlen. rewrite HL at 2. rewrite Hx at 2. rewrite <- app_assoc, skipn_app_exact.
         rewrite firstn_app_exact. rewrite Hx at 1. apply skipn_app_exact.
   Qed.
 
@@ -245,7 +267,7 @@ Section Main.
   Lemma lexical_sym_not_newline : forall t, is_lexical t = true -> sym t <> newline_sym.
   Proof.
     intros t H E. unfold is_lexical in H. rewrite E in H. simpl in H.
-    rewrite andb_false_r in H. discriminate.
+    rewrite ?andb_false_r in H. discriminate.
   Qed.
 
   Lemma line_tokens_lexical : forall n L lts t, tokenize_line T n L = LOk lts -> In t lts ->
@@ -301,13 +323,13 @@ Section Main.
         eapply pre_shape_syms in Hin; eauto. destruct Hin as (H1 & _). apply Nat.eqb_eq. auto. }
     rewrite (filter_all _ _ lts).
     2:{ intros t Hin. destruct (line_tokens_lexical _ _ _ _ Hl Hin) as [_ H2]. apply Nat.eqb_eq. auto. }
-    simpl. rewrite Nat.eqb_refl. simpl. rewrite !app_nil_r, !filter_app.
+    simpl. rewrite Nat.eqb_refl. simpl. rewrite !app_nil_r.
     rewrite (filter_none _ _ pre).
     2:{ intros t Hin. destruct Hp as [(_ & -> & _)|[_ Hp]]; [destruct Hin|].
         eapply pre_shape_syms in Hin; eauto. destruct Hin as (_ & H1 & _). auto. }
     rewrite (filter_all _ _ lts).
     2:{ intros t Hin. destruct (line_tokens_lexical _ _ _ _ Hl Hin) as [H1 _]. auto. }
-    simpl. apply app_nil_r.
+    reflexivity.
   Qed.
 
   Theorem tokens_cover_proof : forall lines ts l L,
@@ -376,13 +398,13 @@ Section Main.
   Qed.
 
   Lemma finish_err_indent : forall n r ln a b, finish n r = ErrIndent ln a b <-> r = SErrIndent ln a b.
-  Proof. intros n [body st| | |] ln a b; simpl; split; intros H; try discriminate; congruence. Qed.
+  Proof. intros n [body st|ln0 a0 b0|ln0 a0 b0|] ln a b; simpl; split; intros H; try discriminate; congruence. Qed.
 
   Lemma finish_err_token : forall n r ln a b, finish n r = ErrToken ln a b <-> r = SErrToken ln a b.
-  Proof. intros n [body st| | |] ln a b; simpl; split; intros H; try discriminate; congruence. Qed.
+  Proof. intros n [body st|ln0 a0 b0|ln0 a0 b0|] ln a b; simpl; split; intros H; try discriminate; congruence. Qed.
 
   Lemma finish_toks : forall n r ts, finish n r = Toks ts -> exists body st, r = SOk body st.
-  Proof. intros n [body st| | |] ts; simpl; intros H; try discriminate; eauto. Qed.
+  Proof. intros n [body st|ln0 a0 b0|ln0 a0 b0|] ts; simpl; intros H; try discriminate; eauto. Qed.
 
   (* the tokens of lines ls without the synthesised end-of-file Dedents *)
   Definition open_levels (ts : list token) (n : nat) : option (list str) :=
@@ -397,7 +419,7 @@ Section Main.
     rewrite (filter_all _ _ body).
     2:{ intros t Hin. pose proof (tok_state_range _ _ _ _ _ Hs t Hin). apply Nat.leb_le. lia. }
     rewrite (filter_none _ _ (repeat _ _)).
-    2:{ intros t Hin. apply repeat_spec in Hin. subst t. simpl. apply Nat.leb_gt. lia. }
+    2:{ intros t Hin. apply repeat_spec in Hin. subst t. apply Nat.leb_gt. simpl. lia. }
     destruct (tok_state_run T Hrf _ _ _ _ _ [] stack_ok_init Hs) as [[upper ->] Hrun].
     rewrite Hrun. simpl. split; auto. destruct upper; discriminate.
   Qed.
@@ -411,20 +433,21 @@ Section Main.
   Proof.
     intros ls L more ts H. destruct (open_levels_state _ _ H) as (body & st & Hs & Ho & Hne).
     exists st. split; auto.
-    unfold tokenize_lines. rewrite tok_lines_state, finish_err_indent, tok_state_app, Hs. simpl.
-    destruct st as [|top tl]; [congruence|]. simpl.
+    unfold tokenize_lines. rewrite tok_lines_state, finish_err_indent, tok_state_app, Hs.
+    change (0 + length ls) with (length ls). rewrite tok_state_cons.
+    destruct st as [|top tl]; [congruence|]. cbn [hd].
     destruct (tokenize_line T (S (length ls)) L) as [lts|e|] eqn:El.
     - destruct (all_comment lts) eqn:Ec.
       + split.
         * intros Hx. exfalso.
           destruct (tok_state T (S (length ls)) (top :: tl) more) eqn:Em; simpl in Hx; try discriminate.
-          injection Hx as Hx _ _. apply tok_state_err_line in Em. lia.
+          injection Hx as Hx _ _. pose proof (tok_state_err_line _ _ _ _ _ _ (or_introl Em)). lia.
         * intros (lts' & E & Hsig & _). injection E as <-. apply all_comment_false in Hsig. congruence.
       + destruct (indent_step (S (length ls)) (top :: tl) (take_ws T L)) as [pre st1| |] eqn:Ei.
         * split.
           -- intros Hx. exfalso.
              destruct (tok_state T (S (length ls)) st1 more) eqn:Em; simpl in Hx; try discriminate.
-             injection Hx as Hx _ _. apply tok_state_err_line in Em. lia.
+             injection Hx as Hx _ _. pose proof (tok_state_err_line _ _ _ _ _ _ (or_introl Em)). lia.
           -- intros (lts' & E & Hsig & Hnp & Hni).
              assert (Hb : indent_step (S (length ls)) (top :: tl) (take_ws T L) = IBad) by (apply indent_step_bad; auto).
              congruence.
@@ -463,8 +486,10 @@ Section Main.
           assert (Hr : tok_state T (S ln) st2 rest = SErrIndent n a b \/ tok_state T (S ln) st2 rest = SErrToken n a b).
           { destruct (tok_state T (S ln) st2 rest); simpl in Hx; auto. destruct Hx; discriminate. }
           destruct (IH _ _ Hr) as (ls & L0 & more & body & st1 & -> & -> & Hs).
-          exists (L :: ls), L0, more, (xs ++ body), st1. simpl. repeat split; auto; [f_equal; lia|].
-          change (L :: ls) with ([L] ++ ls). rewrite tok_state_app, H1. simpl. rewrite Hs. auto. }
+          exists (L :: ls), L0, more, (xs ++ body), st1.
+          split; [reflexivity|]. split; [simpl; lia|].
+          change (L :: ls) with ([L] ++ ls). rewrite tok_state_app, H1.
+          replace (ln + length [L]) with (S ln) by (simpl; lia). rewrite Hs. reflexivity. }
         destruct (tokenize_line T (S ln) L) as [lts|e|] eqn:El.
         + destruct (all_comment lts) eqn:Ec.
           * eapply Hlater; eauto. simpl. rewrite El, Ec. simpl. rewrite app_nil_r. auto.
@@ -488,14 +513,15 @@ Section Main.
       b = S a /\ line_err T 0 L (a - 1) /\ 1 <= a.
   Proof.
     intros ls L more ts H a b. destruct (open_levels_state _ _ H) as (body & st & Hs & _ & _).
-    unfold tokenize_lines. rewrite tok_lines_state, finish_err_token, tok_state_app, Hs. simpl.
+    unfold tokenize_lines. rewrite tok_lines_state, finish_err_token, tok_state_app, Hs.
+    change (0 + length ls) with (length ls). rewrite tok_state_cons.
     destruct (tokenize_line T (S (length ls)) L) as [lts|e|] eqn:El.
     - intros Hx. exfalso. destruct (all_comment lts).
       + destruct (tok_state T (S (length ls)) st more) eqn:Em; simpl in Hx; try discriminate.
-        injection Hx as Hx _ _. apply tok_state_err_line in Em. lia.
+        injection Hx as Hx _ _. pose proof (tok_state_err_line _ _ _ _ _ _ (or_intror Em)). lia.
       + destruct (indent_step (S (length ls)) st (take_ws T L)); try discriminate.
         destruct (tok_state T (S (length ls)) st0 more) eqn:Em; simpl in Hx; try discriminate.
-        injection Hx as Hx _ _. apply tok_state_err_line in Em. lia.
+        injection Hx as Hx _ _. pose proof (tok_state_err_line _ _ _ _ _ _ (or_intror Em)). lia.
     - intros Hx. injection Hx as <- <-. simpl. rewrite Nat.sub_0_r.
       apply tokenize_line_err in El. repeat split; auto. lia.
     - discriminate.
